@@ -352,6 +352,8 @@ func runC03(e *Engine, r *Report) {
 	borrow(e, r, "C04", "TBL-free-order", "MPT-persist-before-send", "MPT-persist-before-ack")
 	borrow(e, r, "C08", "MPT-restore-replaces")
 	ruleTallyDistinct(e, r)
+	ruleReplaySetsState(e, r)
+	ruleNotifyApplied(e, r)
 }
 
 // canGrantTrueEdges: in the boolean phi that forms the predicate's result,
